@@ -37,8 +37,14 @@ def r1_forward_codec(ctx, nf, rule="C02.R1", modules=("hugr.ops", "hugr.tys", "h
             # extension-op wrappers encode through ExtOp.to_custom_op (decided under C11.R3 / C05.R1b)
             if x.is_subclass_of("AsExtOp"):
                 t, env = _try_nf(nf, x, "_to_serial")
-                ok = t is not None and contains(t, ("call", ".to_custom_op")) or (t is not None and "to_custom_op" in show(t)) or (
-                    t is not None and "ext_op" in u(m))
+                pname = m.args.args[1].arg
+                wants = []
+                for src in (f"self.to_custom_op()._to_serial({pname})", f"self.ext_op.to_custom_op()._to_serial({pname})", f"self.ext_op._to_serial({pname})"):
+                    try:
+                        wants.append(nf.expr_nf(src, x, extra={pname: sym(pname)})[0])
+                    except Opaque:
+                        pass
+                ok = t is not None and t in wants
                 via = "self.ext_op" if "ext_op" in u(m) else "self.to_custom_op()"
                 ctx.check(bool(ok), rule, inst, k.module.path, m.lineno,
                           f"{x.name}._to_serial must encode through its ExtOp / Custom form", m,
